@@ -313,7 +313,10 @@ def write_vcf(case, path, *, samples=None, phased=None, extra_format=None, heade
                         cols.append(gt_of(hc, vi, True) + ":%d" % sid)
                         anyps = True
                     else:
-                        cols.append(gt_of(hc, vi) + (":." if phased else ""))
+                        g = gt_of(hc, vi)
+                        if vi in case.get("unsorted_gt", {}).get(s, {}).get(c["name"], ()):
+                            g = "/".join(reversed(g.split("/")))    # legal VCF: unphased alleles in descending order ('1/0')
+                        cols.append(g + (":." if phased else ""))
                 fmt = "GT:PS" if phased else "GT"
                 alt = v["alt"] + ("," + v["alt2"] if v.get("alt2") else "")
                 f.write("%s\t%d\t.\t%s\t%s\t.\tPASS\t.\t%s\t%s\n" % (c["name"], v["pos"] + 1, v["ref"], alt, fmt, "\t".join(cols)))
